@@ -12,6 +12,13 @@ RULE = ("each case builds the real ExecutionManager (ExecutionManager::new + run
         "and with probability 0/0/8/30% per case-class a client answer does not echo the request (other exchange, unknown or other instrument, other cid/strategy/fields, unknown "
         "instrument or unknown ASSET name in the error: the response cannot be indexed and is filtered). Thorough additionally enumerates T=2, two requests (kind x delay in "
         "{0,1,2,3,never}; first client answering ok or Err(Connectivity(Timeout))) sent 0/1 ticks apart x 9 time scripts (3 240 cases). "
+        "INPUT-DOMAIN families (N/4 further cases `d<k>`, separately seeded so that the cases above are unchanged; k mod 8): (0,1) the manager serves an exchange that is NOT the first of the system "
+        "(`init T n m x`, own exchange index = exchange id number x in 1..3; the unconfigured-key request and the non-echoing answer then name exchange 0); (2,3) the Decimal domain of the static fields: "
+        "70 % of the opens use body codes 60..219 = price / quantity from {1e-8/1e-8, 1e12/1e12, -3.5/2.25 (negative price), 0.5/0 (quantity ZERO), 123456.789/0.001, 1e12/1e-8, 1/1e15, 0/-1 (negative quantity)} "
+        "x side x Limit|Market x the 5 times in force, and the filled quantity of an accepted open additionally is quantity - 1e-8 (all but the smallest unit: NOT fully filled) or quantity + 1e-8; "
+        "(4) a first batch of 33-90 (thorough 33-200) requests with T in {2,3,5,8}: more than 32 (FuturesUnordered's poll budget) / 128 (tokio's coop budget) outstanding at once; "
+        "(5) a LARGE timeout T in {50, 1000, 100000} ticks with delays in {0, 1, T-1, T, T+1, 2T, never} and a silence of 0 / 700 / 250000 ticks after every round (requests after a long idle gap; "
+        "timer-wheel levels 1-3); (6) all of these at once (batches 20-50); (7) NO request at all: time passes, then (60 %) Shutdown. "
         "Observed per op: every request the manager HANDS TO THE CLIENT (the scripted client records what it receives: exchange id, instrument NAME, strategy, client order id, side / price / "
         "quantity / kind / time in force or the cancel's order id; `fwd` lines in intake order), the sorted multiset of events received on the manager's response channel WITH the payload each carries "
         "(order id, exchange time, filled quantity of an accepted open; order id, exchange time of a confirmed cancel; error kind with its instrument / asset argument, its text, the exchange of "
@@ -31,7 +38,12 @@ ASSUMPTIONS = [
     "both outcomes as alternatives `{timeout|response}` for exactly these requests (fate_spec_or_late) and constrains every other request of the op",
     "EchoesKey: the ExecutionClient answers about the order it was asked about (same exchange/instrument/strategy/cid and static fields) and names only configured instruments / assets in its errors; "
     "otherwise the code skips the answer (no event) or attributes it to the echoed key - modelled and exercised, excluded from the exactly-once theorems",
-    "requests name the manager's own exchange and a configured instrument (otherwise ExecutionManager::run panics; model and harness both report `panic`)",
+    "requests name the manager's own exchange and a configured instrument (otherwise ExecutionManager::run panics; model and harness both report `panic`); the manager's own exchange is any of the "
+    "exchange indices 0..3 (`init T n m x`; harness: ExchangeIndex(x) / exchange_id(x), model: Cfg.exchange = x, index and id being the same number)",
+    "input domain of the static fields (domain audit): price and quantity are signed Decimals the manager does not validate - zero, negative, 1e-8 and 1e15 are inside the quantifier; the clause `an accepted "
+    "open with nothing left to fill is reported fully filled` is applied literally as quantity - filled_quantity = 0 in exact arithmetic (Driver/C07.lean parseReq: nothingLeft), hence an accepted open "
+    "of quantity 0 with nothing filled IS reported fully filled, one with 1e-8 left or over-filled by 1e-8 is NOT - the real code agrees on all of them; the exchange time of an answer is a non-negative "
+    "number of ms after a fixed instant, the order id / error text a small number (opaque strings in the code)",
     "the AccountEventIndexer is the identity on configured keys - instruments AND assets (find_asset_index: asset names 0..m-1 configured) - and fails elsewhere (its correctness is property C04)",
     "a client's answer Err(Connectivity(Timeout)) produces the SAME OrderError value as the manager's own timeout (manager.rs:356/412 vs indexer.rs:255): the response event and the "
     "timeout event of a faithful client are equal values; only the fate (and the arrival time) differs - modelled as the code behaves (client_timeout_event_is_the_managers_timeout_event)",
@@ -96,7 +108,7 @@ LEVEL_TEXT = ("Proof (PARTIAL: bookkeeping proved, runtime tied by correspondenc
               "timeout_carries_nothing. NOT modelled, hence not proved: FuturesUnordered, tokio::select! fairness (that a ready future IS eventually polled - liveness is only "
               "`_partial`), timer-wheel granularity and wake-ups; these are exercised, not proved, by running the real ExecutionManager::run under virtual time on every check.")
 LEVEL_NOTE = ("Trusted: Lean kernel; axioms propext/Classical.choice/Quot.sound only; the hand-written transition system (tied to manager.rs/request.rs by sampled correspondence: "
-              "200 quick / 5 000 random + 1 800 enumerated small-scope cases thorough, prompt and late time steps, batches up to 40 outstanding); tokio's paused clock; harness and driver. "
+              "200 + 50 quick / 5 000 + 1 250 random + 3 240 enumerated small-scope cases thorough, prompt and late time steps, batches up to 90 (thorough 200) outstanding, a non-first exchange, zero / negative / 1e-8 / 1e15 prices and quantities, timeouts up to 100 000 ticks); tokio's paused clock; harness and driver. "
               "Hypotheses: EchoesKey (client answers about the order it was asked about, error names - instrument / asset - configured; violations are modelled and exercised but excluded from exactly-once: the code then emits no event "
               "or attributes it to the echoed key), requests for configured keys (else the manager panics), indexer = identity on configured keys (C04). Requests in flight at Shutdown are "
               "dropped (property: `while running`). Multi-thread runtimes are not exercised (paused clock needs the current-thread runtime).")
